@@ -5,6 +5,7 @@ CONSTANTS
   Fuel = 80
   Prods = {"app", "let", "arith", "div", "str", "br", "data", "pair", "codata", "fix", "vfn"}
   Faults = {}
+  Root = "os"
   BindTys = {"int", "unit", "gi"}
   IntLits = {1, 2}
 INVARIANTS GenSound TypeSafety Report
